@@ -12,9 +12,9 @@ one() {
   if [ -f /verif/seeded/$id/patch.diff ]; then patch=/verif/seeded/$id/patch.diff; else patch=/verif/regressions/$id.revert.diff; fi
   if git -C $wt apply $patch 2>/dev/null; then
     if [ -n "${PROPS:-}" ]; then
-      out=""; for p in $PROPS; do out="$out$(ARK_REPO=$wt /verif/bin/arkcheck -property $p -out /tmp/mxout_$$_$id 2>&1)"$'\n'; done
+      out=""; for p in $PROPS; do out="$out$(ARK_REPO=$wt ${ARKCHECK:-/verif/bin/arkcheck} -property $p -out /tmp/mxout_$$_$id 2>&1)"$'\n'; done
     else
-      out=$(ARK_REPO=$wt /verif/bin/arkcheck -property all -out /tmp/mxout_$$_$id 2>&1)
+      out=$(ARK_REPO=$wt ${ARKCHECK:-/verif/bin/arkcheck} -property all -out /tmp/mxout_$$_$id 2>&1)
     fi
     caught=$(echo "$out" | grep -o "^VIOLATION property=C[0-9]*" | sed 's/VIOLATION property=//' | sort -u | tr '\n' ' ')
     und=$(echo "$out" | grep -o "^UNDECIDED property=C[0-9]*" | sed 's/UNDECIDED property=//' | sort -u | sed 's/$/(undecided)/' | tr '\n' ' ')
